@@ -85,10 +85,10 @@ theorem bgraLoop_ok (conv : Bc3Colour) : ∀ (n : Nat) (src : Bytes), 4 * n ≤ 
 
 theorem u32le_put (v : UInt32) :
     u32le v.toUInt8 (v >>> 8).toUInt8 (v >>> 16).toUInt8 (v >>> 24).toUInt8 = v := by
-  simp only [u32le]; bv_decide
+  simp only [u32le]; bv_decide (timeout := 300)
 
 theorem u16le_put (v : UInt16) : u16le v.toUInt8 (v >>> 8).toUInt8 = v := by
-  simp only [u16le]; bv_decide
+  simp only [u16le]; bv_decide (timeout := 300)
 
 theorem readU32s_put (vs : List UInt32) (rest : Bytes) :
     readU32s vs.length (vs.flatMap putU32le ++ rest) = some (vs, rest) := by
@@ -246,7 +246,7 @@ theorem ofU32_of_formatOfCode (c : UInt32) (fmt : Format) (h : Spec.Tex.formatOf
 
 theorem is3D_iff (a : UInt32) : (a &&& TEXTURE_TYPE3_D = TEXTURE_TYPE3_D) ↔ Spec.Tex.is3D a = true := by
   have h1 : (a &&& 0x1000000 = 0x1000000) ↔ (a / 16777216 % 2 = 1) := by
-    constructor <;> intro h <;> bv_decide
+    constructor <;> intro h <;> bv_decide (timeout := 300)
   simp only [TEXTURE_TYPE3_D, Spec.Tex.is3D, h1, ← UInt32.toNat_inj, UInt32.toNat_mod, UInt32.toNat_div,
     UInt32.toNat_ofNat, decide_eq_true_eq]
 
@@ -406,11 +406,11 @@ theorem canonImage_eq (conv : Bc3Colour) (fmt : Format) (w h d : Nat) (payload r
 
 theorem put_u32le (a b c d : UInt8) : putU32le (u32le a b c d) = [a, b, c, d] := by
   simp only [putU32le, u32le, List.cons.injEq, and_true]
-  refine ⟨?_, ?_, ?_, ?_⟩ <;> bv_decide
+  refine ⟨?_, ?_, ?_, ?_⟩ <;> bv_decide (timeout := 300)
 
 theorem put_u16le (a b : UInt8) : putU16le (u16le a b) = [a, b] := by
   simp only [putU16le, u16le, List.cons.injEq, and_true]
-  refine ⟨?_, ?_⟩ <;> bv_decide
+  refine ⟨?_, ?_⟩ <;> bv_decide (timeout := 300)
 
 theorem exists_u32s : ∀ (n : Nat) (bs : Bytes), 4 * n ≤ bs.length →
     ∃ (vs : List UInt32) (rest : Bytes), vs.length = n ∧ bs = vs.flatMap putU32le ++ rest := by
